@@ -443,3 +443,138 @@ def randomise_video_parameters(vp, rng):
         vp["clean_width"], vp["clean_height"] = cw, ch
         vp["left_offset"], vp["top_offset"] = rng.randint(0, w - cw), rng.randint(0, h - ch)
     return vp
+
+
+# ---------------------------------------------------------------------------------------------------
+# hand-packed tiny streams with DEGENERATE (small, zero, inconsistent) coding parameters
+# ---------------------------------------------------------------------------------------------------
+class BitPacker(object):
+    """Independent MSB-first bit packer (not the project's writer)."""
+    def __init__(self):
+        self.b = []
+
+    def bit(self, v):
+        self.b.append(1 if v else 0)
+
+    def nbits(self, n, v):
+        for i in range(n - 1, -1, -1):
+            self.b.append((v >> i) & 1)
+
+    def uint(self, v):
+        v += 1
+        for i in range(v.bit_length() - 2, -1, -1):
+            self.b.append(0)
+            self.b.append((v >> i) & 1)
+        self.b.append(1)
+
+    def align(self, fill=0):
+        while len(self.b) % 8:
+            self.b.append(fill)
+
+    def tobytes(self):
+        self.align()
+        return bytes(int("".join(map(str, self.b[i:i + 8])), 2) for i in range(0, len(self.b), 8))
+
+
+def _pi(code, npo, ppo):
+    return b"BBCD" + bytes([code]) + (npo & 0xFFFFFFFF).to_bytes(4, "big") + (ppo & 0xFFFFFFFF).to_bytes(4, "big")
+
+
+def degenerate_stream(rng):
+    """(label, bytes): sequence header + one picture or fragment(s) + end of sequence, packed by hand, whose
+    transform/slice parameters are small and frequently degenerate: zero slice counts, zero or tiny slice byte
+    budgets (LD numerator 0, numerator < denominator, denominator 0), HQ scaler 0, depths 0, payload shorter
+    or longer than the parameters imply.  Structurally well-formed (offsets, prefixes) so that the parser
+    reaches the picture payload."""
+    profile = rng.choice([0, 0, 3])
+    major = rng.choice([1, 2, 3, 3]) if profile == 0 else rng.choice([2, 3, 3])
+    width, height = rng.choice([1, 2, 4, 8]), rng.choice([1, 2, 4])
+    p = BitPacker()
+    p.uint(major); p.uint(0); p.uint(profile); p.uint(0)
+    p.uint(0)                                    # base_video_format: custom
+    p.bit(1); p.uint(width); p.uint(height)
+    cdf = rng.choice([None, 0, 1, 2])
+    p.bit(cdf is not None)
+    if cdf is not None:
+        p.uint(cdf)
+    for _ in range(6):                           # scan, frame rate, aspect, clean area, signal range, colour: defaults
+        p.bit(0)
+    p.uint(rng.choice([0, 0, 1]))                # picture_coding_mode
+    hdr = p.tobytes()
+    fragment = major >= 3 and rng.random() < 0.35
+    p = BitPacker()
+    p.nbits(32, rng.choice([0, 1, (1 << 32) - 1, rng.randrange(1 << 32)]))
+    if fragment:
+        p.nbits(16, rng.choice([0, 1, 40])); p.nbits(16, 0)
+    else:
+        pass
+    p.uint(rng.choice([0, 1, 2, 3, 4, 5, 6, 6, 7]))     # wavelet_index (7: invalid)
+    depth = rng.choice([0, 0, 1, 1, 2, 3])
+    p.uint(depth)
+    depth_ho = 0
+    if major >= 3:
+        a = rng.random() < 0.3
+        p.bit(a)
+        if a:
+            p.uint(rng.randrange(0, 8))
+        b = rng.random() < 0.3
+        p.bit(b)
+        if b:
+            depth_ho = rng.choice([0, 1, 2])
+            p.uint(depth_ho)
+    sx, sy = rng.choice([0, 1, 1, 2, 3]), rng.choice([0, 1, 1, 2])
+    p.uint(sx); p.uint(sy)
+    if profile == 0:
+        num = rng.choice([0, 0, 1, 1, 2, 3, 5, 8, 16])
+        den = rng.choice([0, 1, 1, 2, 2, 3])
+        p.uint(num); p.uint(den)
+        label = "ld %d/%d" % (num, den)
+    else:
+        prefix, scaler = rng.choice([0, 0, 1, 2]), rng.choice([0, 1, 1, 2])
+        p.uint(prefix); p.uint(scaler)
+        label = "hq p%d s%d" % (prefix, scaler)
+    cqm = rng.random() < 0.25
+    p.bit(cqm)
+    if cqm:
+        n = (1 if depth_ho == 0 else 1 + depth_ho) + 3 * depth if depth or depth_ho else 1
+        for _ in range(rng.choice([n, n, max(0, n - 1)])):
+            p.uint(rng.choice([0, 1, 4, 127]))
+    p.align()
+    body = p.tobytes()
+    frags = []
+    if fragment:
+        # slice-carrying fragments follow the parameter-carrying one
+        total = max(1, sx * sy)
+        left, x, y = total, 0, 0
+        for _ in range(rng.choice([1, 1, 2])):
+            n = rng.choice([left, 1, max(1, left // 2)])
+            q = BitPacker()
+            q.nbits(32, 0); q.nbits(16, 0); q.nbits(16, n); q.nbits(16, x); q.nbits(16, y)
+            frags.append(q.tobytes() + _payload(rng))
+            left -= n
+            if sx:
+                y, x = (y * sx + x + n) // sx, (y * sx + x + n) % sx
+            if left <= 0:
+                break
+        # fix the picture numbers of the slice fragments to the first one's
+        frags = [body[:4] + f[4:] for f in frags]
+    else:
+        body += _payload(rng)
+    code_pic = {(0, False): 0xC8, (3, False): 0xE8, (0, True): 0xCC, (3, True): 0xEC}[(profile, fragment)]
+    units = [(0x00, hdr), (code_pic, body)] + [(code_pic, f) for f in frags]
+    out, prev = b"", 0
+    for code, b in units:
+        out += _pi(code, 13 + len(b), prev) + b
+        prev = 13 + len(b)
+    out += _pi(0x10, 0, prev)
+    return "degenerate:%s%s v%d %dx%d d%d+%d s%dx%d" % (label, " frag" if fragment else "", major, width, height, depth, depth_ho, sx, sy), out
+
+
+def _payload(rng):
+    n = rng.choice([0, 0, 1, 2, 3, 5, 12, 40])
+    mode = rng.randrange(4)
+    if mode == 0:
+        return bytes(n)
+    if mode == 1:
+        return b"\xff" * n
+    return bytes(rng.randrange(256) for _ in range(n))
